@@ -7,9 +7,12 @@ from .. import common as C
 from . import c17
 
 ID = "C18"
-MODULES = ["Helios.Props.C18", "Helios.Props.C17", "Helios.Props.Facts"]
+MODULES = ["Helios.Props.CodeCfg", "Helios.Props.C18", "Helios.Props.C17", "Helios.Props.Facts"]
 THEOREMS = ["Helios.Cfg.validate_iff_documented", "Helios.Cfg.validate_first", "Helios.Cfg.accepted_breaker_live",
             "Helios.Cfg.accepted_values_fit",
+            # Tie C: Config.Validate and its eleven section validators, translated from the source on every run
+            "Helios.CodeTie.Validate_refines", "Helios.CodeTie.Validate_iff_documented",
+            "Helios.CodeTie.ruleOf_nonzero_on_code", "Helios.CodeTie.translation_clean_cfg",
             "Helios.Http.startup_fail_closed",
             "Helios.Facts.strategies_eq", "Helios.Facts.log_enums_eq"]
 
@@ -166,9 +169,86 @@ def documented_files(ctx):
     return eps
 
 
+MAXS = (2**63 - 1) // 10**9
+STRATEGIES = {"round_robin", "least_connections", "weighted_round_robin", "ip_hash", "ip_hash_consistent"}
+
+
+def undocumented(compact):
+    """The documented constraints (README "Configuration", docs/, the comments of the sample files),
+    written here a second time and independently of the Lean model: the first one the compact
+    field assignment breaks, or None. Used to turn an accept/reject disagreement into a failing input."""
+    f = {}
+    for kv in compact.split(";"):
+        if "=" in kv:
+            k, v = kv.split("=", 1)
+            f[k] = v
+    g = lambda k: f.get(k, "")
+
+    def i(k):
+        try:
+            return int(g(k))
+        except ValueError:
+            return 0
+    on = lambda k: g(k) == "1"
+    bes = [e.split("|") for e in g("b").split(",") if e.count("|") == 2]
+    if not bes:
+        return "at least one backend"
+    for n, a, w in bes:
+        if n == "":
+            return "backend name"
+        if a == "":
+            return "backend address"
+        if (int(w) if w.lstrip("-").isdigit() else 0) < 0:
+            return "backend weight >= 0"
+    if not 1 <= i("port") <= 65535:
+        return "server port in 1..65535"
+    if on("tls") and (g("cert") == "" or g("key") == ""):
+        return "tls needs cert and key"
+    T = ["tr", "tw", "ti", "th", "ts", "td", "tbr", "tbi"]
+    if any(i(k) < 0 for k in T):
+        return "timeouts >= 0"
+    if g("strat") not in STRATEGIES | {""}:
+        return "known strategy"
+    if on("ws"):
+        if i("wsi") < 0 or i("wsa") < 0 or i("wst") < 0 or (i("wsa") > 0 and i("wsi") > i("wsa")):
+            return "websocket pool relations"
+    if on("act") and not (i("ai") > 0 and 0 < i("at") < i("ai") and g("ap") != ""):
+        return "active health check: interval > timeout > 0, path"
+    if on("pas") and not (i("pt") > 0 and i("pto") > 0):
+        return "passive health check positives"
+    if on("rl") and not (i("rlm") > 0 and i("rlr") > 0):
+        return "rate limit positives"
+    if on("cb"):
+        if not (i("cbf") > 0 and i("cbs") > 0 and i("cbt") > 0 and i("cbi") > 0 and i("cbm") >= 0):
+            return "circuit breaker positives"
+        if i("cbm") > 0 and i("cbs") > i("cbm"):
+            return "breaker success threshold <= max requests"
+    if on("met"):
+        if not 1 <= i("mp") <= 65535 or not g("mpa").startswith("/") or g("mpa") == "/health":
+            return "metrics port / path"
+    if on("adm") and not 1 <= i("admp") <= 65535:
+        return "admin port"
+    if g("ll") not in {"", "debug", "info", "warn", "error", "fatal"} or g("lf") not in {"", "json", "console", "text"}:
+        return "log level / format"
+    secs = T + (["wst"] if on("ws") else []) + (["ai", "at"] if on("act") else []) + (["pto"] if on("pas") else []) \
+        + (["rlr"] if on("rl") else []) + (["cbi", "cbt"] if on("cb") else [])
+    if any(i(k) > MAXS for k in secs):
+        return "seconds fit a time.Duration"
+    if on("cb") and any(i(k) > 2**32 - 1 for k in ("cbm", "cbf", "cbs")):
+        return "breaker counts fit uint32"
+    return None
+
+
 def oracle(ep, outs):
     o = outs[0] if outs else ""
     fails = []
+    parts = ep[0].split(" ", 2)
+    if parts[0] == "cfg" and len(parts) == 3 and (o.startswith("load=ok") or o.startswith("load=err")):
+        why = undocumented(parts[2])
+        if o.startswith("load=ok") and why is not None:
+            fails.append("a configuration that breaks a documented constraint (%s) is accepted: %s" % (why, parts[2]))
+        if o.startswith("load=err") and why is None:
+            fails.append("a configuration meeting every documented constraint is rejected (%s): %s" % (o, parts[2]))
     if "PANIC" in o:
         fails.append("startup panicked: %s" % o)
     if ep[0].startswith("cfgfile") and o != "load=ok start=ok":
@@ -176,9 +256,6 @@ def oracle(ep, outs):
     if "load=err:?" in o:
         fails.append("configuration rejected with an error that names no documented constraint: %s" % o)
     return fails
-
-
-MAXS = (2**63 - 1) // 10**9
 
 
 def wireall_episode(rng):
@@ -203,6 +280,8 @@ def wireall_oracle(ep, outs):
         return [] if not documented else ["a configuration meeting every documented constraint is rejected: %s" % ep[0]]
     if not o.startswith("eff "):
         return ["unexpected answer %r to %s" % (o, ep[0])]
+    if not documented:
+        return ["a configuration that breaks a documented constraint is accepted and run: %s" % ep[0]]
     e = dict(t.split("=") for t in o.split()[1:])
     S = 10**9
     want = {"ai": ai * S, "at": at * S, "pt": pt, "pto": pto * S, "rlm": rlm, "rlr": rlr * S, "wsi": wsi or 10, "wsa": wsa or 100,
